@@ -229,15 +229,20 @@ def verify_batch(lines):
     return [r for r in (verify(l) for l in lines) if r is not None]
 
 
+DEADLINE_PRODUCER = 0
+
+
 def run_part(args):
     harness, tier, part, jobs = args
-    env = dict(os.environ, VERIF_JOBS=str(jobs))
+    env = dict(os.environ, VERIF_JOBS=str(jobs), VERIF_DEADLINE_S=str(DEADLINE_PRODUCER))
     p = subprocess.run([harness, '--tier', tier, '--part', part], stdout=subprocess.PIPE, text=True, env=env)
     return part, p.returncode, p.stdout
 
 
 def main():
+    global DEADLINE_PRODUCER
     run = Run('C49', 'exploration')
+    DEADLINE_PRODUCER = 0.6 * run.deadline
     ref_aes.selftest()
     assert ref_poly.Poly1305(bytes.fromhex('85d6be7857556d337f4452fe42d506a80103808afb0db2fd4abff6af4149f51b')).tag(b'Cryptographic Forum Research Group').hex() == 'a8061dc1305136c6c22b8baf0c0127a9'
     ncpu = int(os.environ.get('VERIF_JOBS', '0') or 0) or os.cpu_count() or 4
@@ -286,8 +291,14 @@ def main():
     batches = [cases[i:i + B] for i in range(0, len(cases), B)]
     # heavy (pure-Python cipher) cases first so the pool drains evenly
     batches.sort(key=lambda b: -sum(len(x) for x in b))
+    done_batches = 0
     with multiprocessing.Pool(ncpu) as pool:
         for res in pool.imap_unordered(verify_batch, batches, chunksize=4):
+            done_batches += 1
+            if run.deadline_reached():  # never a violation: report what was completed
+                incomplete = True
+                pool.terminate()
+                break
             for key, what in res:
                 if key == 'HARNESS':
                     print('HARNESS-ERROR property=C49', what); return 2
@@ -299,6 +310,7 @@ def main():
         kinds[kk] = kinds.get(kk, 0) + 1
         run.distinct.add(c.rsplit('\t', 1)[0])   # case descriptor without the output
     run.evaluations = len(cases) + sum(v for k, v in stats.items() if not k.startswith('backend_'))
+    run.extra['reference_batches_completed'] = f'{done_batches}/{len(batches)}'
     run.extra['reference_checked_cases'] = len(cases)
     run.extra['cpp_side_checks'] = {k: v for k, v in sorted(stats.items())}
     run.extra['case_kinds'] = dict(sorted(kinds.items()))
@@ -309,7 +321,7 @@ def main():
     for s in ('chunkings', 'aead_tampers', 'aead_splits', 'chacha20_chunkings', 'fsaead_packets'):
         if stats.get(s, 0) == 0: missing.append('stat:' + s)
     if len(impl_names) != 8: missing.append('autodetect masks')
-    if missing and not run.violations:
+    if missing and not run.violations and not incomplete:
         print('HARNESS-ERROR property=C49 vacuous: missing', missing)
         return 2
     for c in (cases[0], cases[len(cases) // 3], cases[2 * len(cases) // 3], cases[-1]):
